@@ -71,7 +71,7 @@ theorem not_overlaps_side (p : P) (ring : List P)
     (∀ v ∈ ring, p.x < v.x) ∨ (∀ v ∈ ring, v.x < p.x) ∨ (∀ v ∈ ring, p.y < v.y) ∨ (∀ v ∈ ring, v.y < p.y) := by
   unfold Bounds.overlaps at h
   simp only [Bool.and_eq_false_iff] at h
-  rcases h with (he | he) | h
+  rcases h with ((((he | he) | h) | h) | h) | h
   · -- the ring's box is empty: the ring has no vertex
     left; intro v hv
     exfalso
@@ -81,8 +81,7 @@ theorem not_overlaps_side (p : P) (ring : List P)
     simp [Bounds.empty, hx, hy] at he
   · -- the point's box is never empty
     simp [Bounds.empty, newBoundsPoint, ERat.le_refl] at he
-  unfold newBoundsPoint at h
-  rcases h with ((h | h) | h) | h
+  all_goals unfold newBoundsPoint at h
   · left; intro v hv
     by_contra hc
     have h1 := (extendPoints_covers ring newBounds v hv).1
